@@ -31,9 +31,9 @@ func (c07) Assumptions() []string {
 func (c07) Batches(tier string, seed uint64) []core.Batch {
 	var b []core.Batch
 	b = append(b, core.Batch{Name: "pinned"})
-	b = append(b, spread("doc", 16, tierN(tier, 300, 4000))...)
-	b = append(b, spread("corrupt", 8, tierN(tier, 2500, 30000))...)
-	b = append(b, spread("raw", 8, tierN(tier, 3000, 40000))...)
+	b = append(b, spread("doc", 16, tierN(tier, 900, 6000))...)
+	b = append(b, spread("corrupt", 8, tierN(tier, 6000, 40000))...)
+	b = append(b, spread("raw", 8, tierN(tier, 6000, 50000))...)
 	return b
 }
 
